@@ -3,7 +3,6 @@ package main
 import (
 	"fmt"
 	"os"
-	"strings"
 
 	"bngvet/internal/load"
 
@@ -19,9 +18,7 @@ func listFuncs(dir string) {
 		fmt.Fprintln(os.Stderr, err)
 		os.Exit(2)
 	}
-	for _, k := range load.FuncKeys(pkgs) {
-		if !strings.HasSuffix(k, "_test") {
-			fmt.Println(k)
-		}
+	for _, k := range load.SymbolLines(pkgs) {
+		fmt.Println(k)
 	}
 }
